@@ -165,7 +165,7 @@ fn gen_conn(rng: &mut Rng, thorough: bool) -> ConnCase {
 /// on a 304; BodySize::None ("omit content-length") on a status that may carry a body
 fn optout(req: &ReqSpec, resp: &RespSpec, size: &SizeSpec) -> bool {
     let user_framing = resp.headers.iter().any(|h| h.0 == "content-length" || h.0 == "transfer-encoding");
-    (resp.no_chunking && *size == SizeSpec::Stream && user_framing)
+    ((resp.no_chunking || req.stream()) && *size == SizeSpec::Stream && user_framing)
         || (resp.status == 304 && resp.headers.iter().any(|h| h.0 == "transfer-encoding"))
         || (*size == SizeSpec::None && !resp.bodiless_status() && !req.head())
 }
